@@ -1664,22 +1664,48 @@ def _refused_as_locked(o):
 
 def session_events(r):
     """the run as a schedule of the session machine (three requests: A, C, the liveness run-step) and what the real side
-    observed for each event; returns (events of the run itself, events of the liveness probe, observations)"""
+    observed for each event; returns (events of the run itself, events of the liveness probe, observations).
+    The order of the acquisitions and ends FOLLOWS THE REAL LOG (the acquisition/refusal entry and the CL entry of each
+    request; the session request sits in front of log index `at`); only a request that left no entry of its own (no flag
+    access at all, e.g. no session on older trees) is placed by what the scheduler knew (tried / done before the request)."""
     a, c = r["out"]
     acc = lambda o: "refused" if _refused_as_locked(o) else "accepted"
-    ev, obs = [], []
-    if r["a_tried_before"]:
-        ev.append("a0"); obs.append(acc(a))
-        if r["a_done_before"] and acc(a) == "accepted":
-            ev.append("f0"); obs.append("ended")
-    ev.append(SREQ[r["which"]]); obs.append(r["sreq"])
-    ev.append("a1"); obs.append(acc(c))
+    log = r["log"]
+    at = r["at"] if r["at"] is not None else len(log)
+
+    def first_attempt(t):
+        return next((i for i, l in enumerate(log) if l[0] == t and not l[3] and
+                     (l[1] in ("TAS", "SL") or (l[1] == "RL" and _refused_as_locked(r["out"][t])))), None)
+
+    def release(t, after):
+        return next((i for i, l in enumerate(log) if l[0] == t and l[1] == "CL" and i > after), None)
+    items = [(at - 0.5, SREQ[r["which"]], r["sreq"])]
+    # request A (0)
+    ia = first_attempt(0)
+    ka = ia if ia is not None else ((at - 0.9) if r["a_tried_before"] else len(log) + 1)
+    items.append((ka, "a0", acc(a)))
+    if acc(a) == "accepted":
+        ra = release(0, ka) if ia is not None else None
+        if ra is None:
+            last = max((i for i, l in enumerate(log) if l[0] == 0), default=None)
+            if r["a_tried_before"] and r["a_done_before"]:
+                ra = at - 0.8
+            else:
+                ra = (last + 0.1) if (last is not None and last > ka) else max(ka, len(log)) + 2
+        items.append((ra, "f0", "ended"))
+    # request C (1)
+    ic = first_attempt(1)
+    kc = ic if ic is not None else at - 0.4
+    items.append((kc, "a1", acc(c)))
     if acc(c) == "accepted":
-        ev.append("f1"); obs.append("ended")
-    if not r["a_tried_before"]:
-        ev.append("a0"); obs.append(acc(a))
-    if acc(a) == "accepted" and not (r["a_tried_before"] and r["a_done_before"]):
-        ev.append("f0"); obs.append("ended")
+        rc = release(1, kc) if ic is not None else None
+        if rc is None:
+            last = max((i for i, l in enumerate(log) if l[0] == 1), default=None)
+            rc = (last + 0.1) if (last is not None and last > kc) else kc + 0.05
+        items.append((rc, "f1", "ended"))
+    items.sort(key=lambda x: x[0])
+    ev = [x[1] for x in items]
+    obs = [x[2] for x in items]
     live = ["B", "a2"]
     lobs = ["done" if r["live"]["begin-session"] == 200 else "refused",
             "refused" if (r["live"]["run-step"] == 500 and "locked" in r["live"]["body"]) else "accepted"]
@@ -2588,13 +2614,23 @@ def replay(path):
         q = r["session_run"]
         world = World()
         try:
-            probe_sessions(world)
+            sf = probe_sessions(world)
             if q["nosession"]:
                 TRACER.setup()
             res = session_run(world, tuple(q["kind"]), q["stop"], q["k"], q["which"], q["ending"], q["fail"], q["gone"], q["nosession"])
         finally:
             world.close()
         v = judge_session_run(res)
+        if "error" not in res:                                # the session machine on the same events
+            ev, live, obs = session_events(res)
+            cfg4 = " ".join("1" if sf[k] else "0" for k in SFACTS)
+            s0 = "0" if res["nosession"] else "1"
+            m1, m2 = drive("C18", [f"srun {cfg4} {s0} 3 {','.join(ev)}", f"srun {cfg4} {s0} 3 {','.join(ev + live)}"])
+            mflag = m1.split("|")[1].split(";")[0] == "flag=1"
+            mout = m2.split("|")[0].split(",")
+            print("session machine:", ",".join(ev + live), "model", mout, "flag_after", mflag, "| impl", obs, "flag_after", res["flag_after"])
+            if mout != obs or mflag != res["flag_after"]:
+                v = v + [("correspondence", "session machine and implementation disagree")]
         print("session run:", q)
         print("actions:", " ".join(f"{t}:{l}" for t, l, i, f in res.get("log", []) if not f), "| session request after log index", res.get("at"))
         print("responses:", [(o["status"], o["times"], o["body"][:40]) for o in res.get("out", [])], "liveness:", res.get("live"))
